@@ -178,14 +178,17 @@ def scatter : List Nat → List Nat → List (BitVec 64) → Table → Table
     scatter vs ls bs { lengths := t.lengths.set v l, bits := t.bits.set v b }
   | _, _, _, t => t
 
-/-- `HuffmanCode::build` on `(counts[0..17], values)`; `none` = panic. -/
+/-- `HuffmanCode::build` on `(counts[0..17], values)`; `none` = panic. (`HuffmanCode::parse` rejects
+`counts[0] ≠ 0` and an empty value list since /repo cbf2128; `build` itself is reached with anything
+only through hook H6.) -/
 def build (counts values : List Nat) : Option Table :=
   match fillLengths counts values.length with
   | none => none
   | some lengths =>
     let lengths := lengths.dropLast          -- `lengths.pop()`
     match lengths with
-    | [] => none                              -- `lengths[0]` out of bounds
+    | [] =>                                   -- no code besides the end marker: an empty table
+      some { lengths := List.replicate 256 0, bits := List.replicate 256 0#64 }
     | l0 :: _ =>
       match assignCodes lengths 0 l0 with
       | none => none
